@@ -87,19 +87,12 @@ fn expected(stage: &str, b: &str, timeout: bool, external: bool) -> Vec<&'static
                 vec!["Err(UnexpectedSocketClose)"]
             }
         }
-        // the statement leaves these two open while waiting for the reply to StartOk
-        "malformed" => {
-            if after_start_ok {
-                vec!["Err(MalformedFrame)", "Err(InvalidCredentials)"]
-            } else {
-                vec!["Err(MalformedFrame)"]
-            }
-        }
+        // (InvalidCredentials is for a connection *dropped* while waiting for the reply to
+        // StartOk; everything else keeps its own cause there too)
+        "malformed" => vec!["Err(MalformedFrame)"],
         "silent" => {
             if !timeout {
                 vec!["HANG-ALLOWED"]
-            } else if after_start_ok {
-                vec!["Err(ConnectionTimeout)", "Err(InvalidCredentials)"]
             } else {
                 vec!["Err(ConnectionTimeout)"]
             }
@@ -233,6 +226,14 @@ impl Scenario for Hs {
             let okset = ["open -> Ok", "open -> Err(UnexpectedSocketClose)", "open -> Err(IoErrorReadingSocket)", "open -> Err(IoErrorWritingSocket)", "open -> Err(InvalidCredentials)"];
             if !okset.contains(&got.as_str()) {
                 v.push(("handshake:fault-result".into(), format!("with injected transport faults open returned {:?}", got)));
+            }
+            // "the matching socket error": a read or write error is not a rejection of credentials
+            // (that is an end of stream while waiting for the reply to StartOk)
+            if got == "open -> Err(InvalidCredentials)" && !o.faults_used.iter().any(|f| *f == vh::sim::world::FaultKind::ReadEof) {
+                v.push(("handshake:socket-error-reported-as-credentials".into(), format!("faults presented {:?}, open returned InvalidCredentials", o.faults_used)));
+            }
+            if got == "open -> Err(UnexpectedSocketClose)" && !o.faults_used.iter().any(|f| *f == vh::sim::world::FaultKind::ReadEof) {
+                v.push(("handshake:socket-error-reported-as-eof".into(), format!("faults presented {:?}, open returned UnexpectedSocketClose", o.faults_used)));
             }
             if o.io_existed && (!o.io_gone || !o.transport_dropped) {
                 v.push(("handshake:not-released".into(), format!("io_gone={} transport_dropped={}", o.io_gone, o.transport_dropped)));
